@@ -3,7 +3,7 @@ sys.path.insert(0, '/verif/design_probes')
 from rgen import rand_model
 from ai_edge_quantizer import quantizer, qtyping
 from ai_edge_quantizer.utils import tfl_interpreter_utils as iu
-R = '/repo/ai_edge_quantizer/recipes/'
+import os; R = os.environ.get('AEQ_REPO', '/repo') + '/ai_edge_quantizer/recipes/'
 recs = ['default_a8w8_recipe.json', 'default_a16w8_recipe.json', 'dynamic_wi8_afp32_recipe.json', 'default_af32w8float_recipe.json', 'default_af32w4float_recipe.json']
 def data_for(m, n=2, seed=3):
     it = iu.create_tfl_interpreter(m); rr = it.get_signature_runner(); r2 = np.random.default_rng(seed); out = []
